@@ -30,6 +30,8 @@ def space(tier, seed):
     # numeric keys: with 10+ records (the 17-record table) numeric order differs from the order of the printed numbers
     orders.append({'keys': [('NR',)], 'desc': True})
     orders.append({'keys': [F('a', 2), ('arith', '*', ('NR',), ('int', 3))], 'desc': True})
+    probe_orders = [{'keys': [F('a', 2), F('a', 1), ('NR',)], 'desc': True}, {'keys': [F('a', 1), F('a', 1), F('a', 2), F('a', 2)], 'desc': False}]   # three / four keys
+    probe_base = [F('a', 2), ('NR',), F('a', 1), F('a', 2), ('NF',)]             # five items
     distincts = [None, 'distinct', 'count']
     maxrows = 4 if tier == 'thorough' else 3
     bounds = [None]
@@ -53,6 +55,16 @@ def space(tier, seed):
                 continue
             q['items'] = list(base) + [('unnest', ('list', F('a', 1), F('a', 2)))]
         qs.append(q)
+    # scale probes beyond the clause bounds (not multiplied into the full product)
+    for o in probe_orders:
+        for base in bases[:2]:
+            for d in distincts:
+                for b in bounds:
+                    qs.append({'kind': 'select', 'items': list(base), 'where': None, 'join': None, 'order': o, 'distinct': d, 'top': b})
+    for o in (None, orders[3], probe_orders[0]):
+        for d in distincts:
+            for b in bounds:
+                qs.append({'kind': 'select', 'items': list(probe_base), 'where': None, 'join': None, 'order': o, 'distinct': d, 'top': b})
     B = [[k1, 'p'], [k1, 'q'], [k2, 'r']]
     # value-domain slice for DISTINCT: records that differ only by '' vs None, or by 2 vs '2', are different records
     vq = []
